@@ -212,6 +212,10 @@ class Model:
         for (frm, to) in spec.get('loops', []):
             # documented rework loop: a gate leads back into an earlier buffer
             self.D[to].set_upstream(self.D[to].upstream + [self.D[frm]])
+        for (nm_, v_) in spec.get('pre_offsets', []):
+            # a one-shot offset requested right after construction, before the first simulate() call
+            self.D[nm_].offset_next_cycle_time(v_)
+            self.pending_offset[nm_] = self.pending_offset.get(nm_, 0) + v_
         for a in spec.get('actions', []):
             self.sched(a)
         # API calls made BETWEEN two simulate() calls (not from inside an event): [[after_run_index, kind, args...]]
@@ -364,6 +368,20 @@ class Model:
                 self.kinds[name] = 'K'
                 self.specs[name] = {'k': 'K', 'n': name, 'c': 0.5, 'up': [u.name for u in ups]}
                 self.late_assets.append(self.D[name])
+        elif kind == 'newsource':
+            def f(c=a[3], budget=a[4]):
+                # a source with its own sink created after the simulation has started (between two runs)
+                note('SX')
+                sx = Source('SX', Gen('SXp', 1, None, self.generated, None), c, budget)
+                kx = Sink('KSX', [sx], 0, collect_parts=True)
+                kx._received_part_callbacks.insert(0, self._first)
+                self.budget['SX'] = budget
+                for o, k, spec_ in ((sx, 'S', {'k': 'S', 'n': 'SX', 'c': c, 'budget': budget, 'batch': None, 'val': 1}),
+                                    (kx, 'K', {'k': 'K', 'n': 'KSX', 'c': 0, 'up': ['SX']})):
+                    self.D[o.name] = o
+                    self.kinds[o.name] = k
+                    self.specs[o.name] = spec_
+                    self.late_assets.append(o)
         elif kind == 'newline':
             def f(ups=[D[u] for u in a[3]], c=a[4]):
                 # a processor and its sink created after the simulation has started (between two runs)
@@ -427,7 +445,15 @@ def ready_part(dev, env, strict=False):
     if isinstance(dev, Buffer):
         if not dev._buffer:
             return None
-        t0, p = dev._buffer[0][0], dev._buffer[0][-1]
+        stored = dev.stored_parts
+        if not stored:
+            return None
+        p = stored[0]
+        # arrival time of the head: the entry of the private store that carries this very part (layout-agnostic)
+        ent = next((e for e in dev._buffer if isinstance(e, tuple) and e and e[-1] is p), None)
+        if ent is None:
+            return None
+        t0 = ent[0]
         ulp = math.ulp(env.now) if env.now else 5e-324
         if strict:
             from fractions import Fraction
